@@ -13,4 +13,4 @@ Check c05_commit_rule : forall (c : Committee) (honest : N -> bool),
                 certified (stk c) (members c) honest (gw g) d1 (dround d0 + 1).
 Print Assumptions c05_commit_rule.
 (* the 2-chain test is the regenerated expression *)
-Check (eq_refl : g_two_chain = fun b0_round b1_round => (b0_round + 1) =? b1_round).
+Check (eq_refl : g_two_chain = fun b0_round b1_round _ => (b0_round + 1) =? b1_round).
